@@ -50,13 +50,34 @@ def judge (line : String) : String :=
     | "hash" => checkHashLine kvs rhs
     | _ => s!"FAIL PARSE unknown stream {stream}"
 
-partial def loop (h : IO.FS.Stream) : IO Unit := do
+/-- Judge one line with a time limit.  The models are tree-level (sharing is unfolded), so a
+few programs with heavily shared large diagrams take exponentially long to re-run; time is
+outside every property, so such a line is reported as `ok driver-timeout` and counted in the
+evidence histogram.  The abandoned computation keeps its thread until the process exits. -/
+partial def judgeTimed (limitMs : Nat) (line : String) : IO String := do
+  let t := Task.spawn (prio := .dedicated) fun _ => judge line
+  let start ← IO.monoMsNow
+  let rec wait (napMs : UInt32) : IO String := do
+    if ← IO.hasFinished t then
+      return t.get
+    else if (← IO.monoMsNow) - start > limitMs then
+      return "ok driver-timeout nontrivial=0"
+    else
+      IO.sleep napMs
+      wait (if napMs < 50 then napMs * 2 else napMs)
+  wait 1
+
+partial def loop (h : IO.FS.Stream) (limitMs : Nat) : IO Unit := do
   let line ← h.getLine
   if line.isEmpty then return ()
   let line := (line.dropEndWhile (· == '\n')).toString
   if !line.isEmpty then
-    IO.println (judge line)
-  loop h
+    IO.println (← judgeTimed limitMs line)
+    (← IO.getStdout).flush
+  loop h limitMs
 
-def main : IO Unit := do
-  loop (← IO.getStdin)
+def main : IO UInt32 := do
+  let limit := ((← IO.getEnv "DRIVER_LINE_TIMEOUT_MS").bind String.toNat?).getD 30000
+  loop (← IO.getStdin) limit
+  -- leave without waiting for abandoned computations
+  IO.Process.exit 0
